@@ -71,10 +71,15 @@ class DBusMessage :
 #            if not a.startswith('raw'):
 #                print '    %s = %s' % (a.ljust(15), str(getattr(self,a)))
 
-    def _marshal(self, newSerial=True, oobFDs=None):
+    def _marshal(self, newSerial=True, oobFDs=None, rawBody=None):
         """
         Encodes the message into binary format. The resulting binary message is
         stored in C{self.rawMessage}
+
+        @param rawBody: if not None, these already-encoded bytes (in the byte
+                        order given by C{self.endian}) are used as the message
+                        body instead of encoding C{self.body}. Used when a
+                        received message is forwarded.
         """
         flags = 0
 
@@ -88,7 +93,9 @@ class DBusMessage :
         _headerAttrs = self._headerAttrs
 
         # marshal body before headers to know if the 'unix_fd' header is needed
-        if self.signature:
+        if rawBody is not None:
+            binBody = rawBody
+        elif self.signature:
             binBody = b''.join(
                 marshal.marshal(
                     self.signature,
